@@ -103,6 +103,34 @@ def heavy_weight_episodes(rng):
         for _ in range(sum(ws) + rng.randint(1, 40)):
             g.request(outcome="200")
         eps.append(g.finish())
+    # a heavy backend replaced under its own name by a light one (blue/green with one name), no pick in between: the new
+    # object starts like any new backend — what the survivors earned against the old one is not held against it
+    for ws, hist in (([1, 99], 50), ([2, 1, 60], 40), ([1, 99], 10)):
+        g = lbgen.Gen(rng, strategy="weighted_round_robin", passive=False, nback=len(ws), weights=list(ws))
+        g.advance(6 * SEC)
+        for _ in range(hist):
+            g.request(outcome="200")
+        heavy = g.names[-1]
+        g.remove(heavy)
+        g.add(w=1, name=heavy)
+        for _ in range(60):
+            g.request(outcome="200")
+        eps.append(g.finish())
+    return eps
+
+
+def big_pool_episodes(rng):
+    """pools of dozens of backends with a long stretch of neighbours ejected (a rack down): the others still get exactly
+    one request each per turn of the rotation; least_connections still picks a minimum"""
+    eps = []
+    for strat, n, lo, hi in (("round_robin", 24, 1, 18), ("round_robin", 40, 5, 36), ("weighted_round_robin", 24, 0, 20), ("least_connections", 33, 2, 30)):
+        g = lbgen.Gen(rng, strategy=strat, passive=False, nback=n, weights=[1] * n)
+        g.advance(6 * SEC)
+        for name in g.names[lo:hi + 1]:
+            g.eject(name=name, dur=3600 * SEC)
+        for _ in range(4 * (n - (hi - lo + 1)) + 3):
+            g.request(outcome="200")
+        eps.append(g.finish())
     return eps
 
 
@@ -244,7 +272,7 @@ def check(ctx):
     nep = 800 if ctx.thorough() else 150
     episodes = C.load_corpus(ID) + exhaustive_weight_episodes(ctx.rng, ctx.thorough()) + \
         [gen_episode(ctx.rng, long=ctx.thorough()) for _ in range(nep)] + conc_episodes(ctx.rng, ctx.thorough()) + \
-        seek_episodes(ctx.rng)[:30 if ctx.thorough() else 12] + heavy_weight_episodes(ctx.rng)
+        seek_episodes(ctx.rng)[:30 if ctx.thorough() else 12] + heavy_weight_episodes(ctx.rng) + big_pool_episodes(ctx.rng)
     bad = d.check(episodes, oracle=oracle, label="dist")
     nontriv = set()
     strat_count = {}
